@@ -177,6 +177,38 @@ def removeFirst (p : DNode → Bool) : List DNode → List DNode × Option DNode
   | [] => ([], none)
   | x :: xs => if p x then (xs, some x) else let r := removeFirst p xs; (x :: r.1, r.2)
 
+/-- "remove old default(s) of the new node if an explicit instance exists": `lyd_validate_autodel_leaflist_dflt` /
+`lyd_validate_autodel_cont_leaf_dflt` for the new node `node` between `done` and `tl`.
+Result: (done', was the node itself deleted, tl', the change events) -/
+def autodelStep (X : SchemaX) (cx : Cx) (done : List DNode) (node : DNode) (tl : List DNode) :
+    List DNode × Bool × List DNode × List Ev :=
+  let sid := node.sid
+  let found := (done ++ node :: tl).any fun x => x.sid == sid && !x.flags.dflt
+  let victimAll := fun (x : DNode) => x.sid == sid && x.flags.dflt
+  let victimOld := fun (x : DNode) => x.sid == sid && x.flags.dflt && !x.flags.new
+  if found then
+    -- every default instance goes, one after the other in sibling order
+    let r1 := delSeq X cx false victimAll [] done
+    let r2 := delSeq X cx false victimAll r1.1 [node]
+    let r3 := delSeq X cx false victimAll r2.1 tl
+    (r1.1, victimAll node, r3.1.drop r2.1.length, r1.2 ++ r2.2 ++ r3.2)
+  else if X.base.isKind sid .leaflist then (done, false, tl, [])
+  else
+    -- a single old default instance (the node itself is new)
+    match removeFirst victimOld done with
+    | (d', some v) => (d', false, tl, delEvents X cx false (done.takeWhile (fun x => !victimOld x)) v)
+    | (_, none) =>
+      match removeFirst victimOld tl with
+      | (t', some v) => (done, false, t', delEvents X cx false (done ++ node :: tl.takeWhile (fun x => !victimOld x)) v)
+      | (_, none) => (done, false, tl, [])
+
+/-- `lyd_validate_duplicates(first, node, val_opts)` for a new node: the error it logs, if any -/
+def dupErr (X : SchemaX) (o : VOpts) (cx : Cx) (done tl : List DNode) (node : DNode) : Out :=
+  let S := X.base
+  let isLst := S.isKind node.sid .list || S.isKind node.sid .leaflist
+  if node.flags.new && dupScan S (done ++ tl) node && !(isLst && o.operational) then Out.err .dup (cx.pathOf S done node)
+  else {}
+
 /-- the loop of `lyd_validate_new` over the siblings; `done` = already passed, `node :: tl` = from the cursor on,
 `last` = `last_dflt_schema` -/
 def newLoop (X : SchemaX) (o : VOpts) (cx : Cx) : (fuel : Nat) → (done rest : List DNode) → (last : Option Nat) →
@@ -184,56 +216,26 @@ def newLoop (X : SchemaX) (o : VOpts) (cx : Cx) : (fuel : Nat) → (done rest : 
   | 0, done, rest, _ => (done ++ rest, {})
   | _ + 1, done, [], _ => (done, {})
   | fuel + 1, done, node :: tl, last =>
-    let S := X.base
     if !(node.flags.new || node.flags.dflt) then newLoop X o cx fuel (done ++ [node]) tl last
     else
-      let sid := node.sid
-      let doAuto := hasDefault S sid && last != some sid && node.flags.new
-      let last' := if doAuto then some sid else last
-      -- remove old default(s) of the new node if an explicit instance exists
-      let found := (done ++ node :: tl).any fun x => x.sid == sid && !x.flags.dflt
-      let isLL := S.isKind sid .leaflist
-      let victimAll := fun (x : DNode) => x.sid == sid && x.flags.dflt
-      let victimOld := fun (x : DNode) => x.sid == sid && x.flags.dflt && !x.flags.new
-      -- (done', node deleted?, tl', events)
-      let r : List DNode × Bool × List DNode × List Ev :=
-        if !doAuto then (done, false, tl, [])
-        else if found then
-          -- every default instance goes, one after the other in sibling order
-          let r1 := delSeq X cx false victimAll [] done
-          let r2 := delSeq X cx false victimAll r1.1 [node]
-          let r3 := delSeq X cx false victimAll r2.1 tl
-          (r1.1, victimAll node, r3.1.drop r2.1.length, r1.2 ++ r2.2 ++ r3.2)
-        else if isLL then (done, false, tl, [])
-        else
-          -- a single old default instance (the node itself is new)
-          match removeFirst victimOld done with
-          | (d', some v) => (d', false, tl, delEvents X cx false (done.takeWhile (fun x => !victimOld x)) v)
-          | (_, none) =>
-            match removeFirst victimOld tl with
-            | (t', some v) => (done, false, t', delEvents X cx false (done ++ node :: tl.takeWhile (fun x => !victimOld x)) v)
-            | (_, none) => (done, false, tl, [])
-      let done' := r.1
-      let nodeGone := r.2.1
-      let tl' := r.2.2.1
+      let doAuto := hasDefault X.base node.sid && last != some node.sid && node.flags.new
+      let last' := if doAuto then some node.sid else last
+      let r := if doAuto then autodelStep X cx done node tl else (done, false, tl, [])
       let o1 := Out.ofEvs r.2.2.2
-      if nodeGone then
-        let rr := newLoop X o cx fuel done' tl' last'
+      if r.2.1 then
+        -- the node itself was auto-deleted: `continue`
+        let rr := newLoop X o cx fuel r.1 r.2.2.1 last'
         (rr.1, o1 ++ rr.2)
       else
         -- duplicate instances of a new node; the node is valid then
-        let isLst := S.isKind sid .list || S.isKind sid .leaflist
-        let o2 : Out :=
-          if node.flags.new && dupScan S (done' ++ tl') node && !(isLst && o.operational) then
-            Out.err .dup (cx.pathOf S done' node)
-          else {}
+        let o2 := dupErr X o cx r.1 r.2.2.1 node
         let node1 := if node.flags.new then clearNew node else node
         -- leftover default nodes of a case that no longer exists
-        if node1.flags.dflt && caseDfltVictim X (done' ++ node1 :: tl') node1 then
-          let rr := newLoop X o cx fuel done' tl' last'
-          (rr.1, o1 ++ o2 ++ Out.ofEvs (delEvents X cx false done' node1) ++ rr.2)
+        if node1.flags.dflt && caseDfltVictim X (r.1 ++ node1 :: r.2.2.1) node1 then
+          let rr := newLoop X o cx fuel r.1 r.2.2.1 last'
+          (rr.1, o1 ++ o2 ++ Out.ofEvs (delEvents X cx false r.1 node1) ++ rr.2)
         else
-          let rr := newLoop X o cx fuel (done' ++ [node1]) tl' last'
+          let rr := newLoop X o cx fuel (r.1 ++ [node1]) r.2.2.1 last'
           (rr.1, o1 ++ o2 ++ rr.2)
 
 /-- `lyd_validate_new(first, sparent, mod, …)` for the children `sibs` of `cx.parent` -/
